@@ -30,7 +30,7 @@ Definition init_state : state := {| dest := []; fs := []; dirs := [] |}.
 
 Inductive task :=
 | TPopulate (p : path) (k : string) (ol : opts * leaf)
-| TWrite (p : path) (files : res (list (fname * content))).
+| TWrite (p : path) (files : res (list (fname * content))) (rm : list fname).   (* rm: files the task removes (D109) *)
 
 (* ---- finite maps as association lists; a write replaces an existing binding in place or appends ---- *)
 Fixpoint path_eqb (a b : path) : bool :=
@@ -39,6 +39,8 @@ Definition floc_eqb (a b : floc) : bool := path_eqb (fst a) (fst b) && fname_eqb
 
 Section Map.
   Context {K V : Type} (eqb : K -> K -> bool).
+  Fixpoint mdel (k : K) (l : list (K * V)) : list (K * V) :=
+    match l with [] => [] | (k', v') :: r => if eqb k k' then mdel k r else (k', v') :: mdel k r end.
   Fixpoint mget (k : K) (l : list (K * V)) : option V :=
     match l with [] => None | (k', v) :: r => if eqb k k' then Some v else mget k r end.
   Fixpoint mset (k : K) (v : V) (l : list (K * V)) : list (K * V) :=
@@ -57,6 +59,8 @@ Definition mkdirs (p : path) (d : list path) : list path :=
 (* ---- what a task does ---- *)
 Definition write_files (p : path) (files : list (fname * content)) (f : list (floc * content)) : list (floc * content) :=
   fold_left (fun acc fc => mset floc_eqb (p, fst fc) (snd fc) acc) files f.
+Definition remove_files (p : path) (rm : list fname) (f : list (floc * content)) : list (floc * content) :=
+  fold_left (fun acc n => mdel floc_eqb (p, n) acc) rm f.
 
 (* a task run by a pool worker: an exception is swallowed (the state is unchanged) *)
 Definition run_task (t : task) (s : state) : state :=
@@ -67,16 +71,16 @@ Definition run_task (t : task) (s : state) : state :=
               fs := if Nat.eqb (numel (lshape l)) 0 then fs s
                     else mset floc_eqb (p, FLeaf k) (CCells (ldtype l) (if like o then repeat 0%Z (numel (lshape l)) else lcells l)) (fs s);
               dirs := dirs s |}
-  | TWrite p (Ok files) => {| dest := dest s; fs := write_files p files (fs s); dirs := mkdirs p (dirs s) |}
-  | TWrite p (Raised _) => s
+  | TWrite p (Ok files) rm => {| dest := dest s; fs := write_files p files (remove_files p rm (fs s)); dirs := mkdirs p (dirs s) |}
+  | TWrite p (Raised _) _ => s
   end.
 
 (* the same task run inline (executor=None): the exception propagates *)
 Definition run_task_strict (t : task) (s : state) : res state :=
   match t with
   | TPopulate p k (o, l) => if refused o l then Raised ERuntime else Ok (run_task t s)
-  | TWrite p (Raised e) => Raised e
-  | TWrite p (Ok _) => Ok (run_task t s)
+  | TWrite p (Raised e) _ => Raised e
+  | TWrite p (Ok _) _ => Ok (run_task t s)
   end.
 
 Definition run_tasks (ts : list task) (s : state) : state := fold_left (fun s t => run_task t s) ts s.
@@ -94,15 +98,15 @@ Fixpoint tasks_of (o : opts) (t : td) (p : path) {struct t} : list task :=
          | (k, Leaf l) :: r => TPopulate p k (o, l) :: go r
          | (k, c) :: r => tasks_of o c (p ++ [k]) ++ go r
          end) ents
-      ++ [TWrite p (Ok [(FMeta, CJson (JObj (node_meta bs ents)))])]
+      ++ [TWrite p (Ok [(FMeta, CJson (JObj (node_meta bs ents)))]) []]
   | Lazy sd ms =>
-      TWrite p (Ok [(FMeta, CJson (JObj [("_type", JStr "LazyStackedTensorDict"); ("stack_dim", jnat sd)]))])
+      TWrite p (Ok [(FMeta, CJson (JObj (lazy_meta sd (List.length ms))))]) []
       :: (fix go (ms : list td) (i : nat) : list task :=
             match ms with [] => [] | m :: r => tasks_of o m (p ++ [string_of_nat i]) ++ go r (S i) end) ms 0
   | TCls c inner =>
-      TWrite p (Ok [(FMeta, CJson (JObj [("_type", JStr c)]))]) :: tasks_of o inner (p ++ ["_tensordict"])
-  | NData _ pl => [TWrite p (ndata_files pl [])]
-  | NStack _ => [TWrite p (nstack_files (tolist t) [])]
+      TWrite p (Ok [(FMeta, CJson (JObj [("_type", JStr c)]))]) [] :: tasks_of o inner (p ++ ["_tensordict"])
+  | NData bs pl => [TWrite p (ndata_files bs pl []) (if is_json_serializable pl then [FOther] else [])]
+  | NStack _ => [TWrite p (nstack_files (List.length (stack_bs t)) (tolist t) []) []]
   end.
 
 (* ---- what the calling thread does itself: directories of TensorDict / tensorclass / NonTensorData nodes, and, for an
@@ -124,10 +128,45 @@ Fixpoint skeleton (inplace : bool) (t : td) (p : path) (s : state) {struct t} : 
   | NStack _ => s
   end.
 
+(* _check_memmap_key in the walk of the calling thread: an entry named like a field of meta.json is refused before
+   anything is submitted for it (D102) *)
+Fixpoint has_reserved (t : td) : bool :=
+  match t with
+  | Node _ ents => (fix any (es : list (string * td)) : bool :=
+                      match es with [] => false | (k, x) :: r => reserved k || has_reserved x || any r end) ents
+  | Lazy _ ms => (fix any (l : list td) : bool := match l with [] => false | x :: r => has_reserved x || any r end) ms
+  | TCls _ inner => has_reserved inner
+  | _ => false
+  end.
+
 Definition run_sequential (o : opts) (inplace : bool) (t : td) : res state :=
-  run_tasks_strict (tasks_of o t []) (skeleton inplace t [] init_state).
+  if has_reserved t then Raised EValueError
+  else run_tasks_strict (tasks_of o t []) (skeleton inplace t [] init_state).
 Definition run_pool (o : opts) (inplace : bool) (t : td) (ts' : list task) : state :=
   run_tasks ts' (skeleton inplace t [] init_state).
+
+(* ---- what the CALL returns with a pool (finding S2).
+   Unrepaired: `concurrent.futures.wait(futures)` and nothing else — the call returns normally whatever the tasks did.
+   Repaired (f.result() for every future after the wait, in submission order): the call raises the exception of the first
+   submitted task that failed; every task has run by then, the directory is the same.
+   [fixed_S2] is the ONE definition to flip when /repo changes side. *)
+Definition fixed_S2 : bool := true.
+
+Definition task_error (t : task) : option err :=
+  match t with
+  | TPopulate _ _ (o, l) => if refused o l then Some ERuntime else None
+  | TWrite _ (Raised e) _ => Some e
+  | TWrite _ (Ok _) _ => None
+  end.
+Fixpoint first_error (ts : list task) : option err :=
+  match ts with [] => None | t :: r => match task_error t with Some e => Some e | None => first_error r end end.
+
+(* submitted: the tasks in submission order (whose futures are inspected in that order); ts': the order they completed in *)
+Definition pool_call_gen (fixed : bool) (o : opts) (inplace : bool) (t : td) (ts' : list task) : res state :=
+  if has_reserved t then Raised EValueError
+  else if fixed then match first_error (tasks_of o t []) with Some e => Raised e | None => Ok (run_pool o inplace t ts') end
+  else Ok (run_pool o inplace t ts').
+Definition pool_call := pool_call_gen fixed_S2.
 
 (* ---- completion orders: the harness's executor runs the task with submission index order[0] first, ... ; indices
    that are not listed follow in submission order ---- *)
@@ -149,12 +188,12 @@ Definition state_equiv (a b : state) : Prop :=
 
 (* targets of a task; two tasks are independent when they do not write the same key of the mapping or the same file *)
 Definition dest_targets (t : task) : list path :=
-  match t with TPopulate p k (o, l) => if refused o l then [] else [p ++ [k]] | TWrite _ _ => [] end.
+  match t with TPopulate p k (o, l) => if refused o l then [] else [p ++ [k]] | TWrite _ _ _ => [] end.
 Definition file_targets (t : task) : list floc :=
   match t with
   | TPopulate p k (o, l) => if refused o l || Nat.eqb (numel (lshape l)) 0 then [] else [(p, FLeaf k)]
-  | TWrite p (Ok files) => map (fun fc => (p, fst fc)) files
-  | TWrite p (Raised _) => []
+  | TWrite p (Ok files) rm => map (fun fc => (p, fst fc)) files ++ map (fun n => (p, n)) rm
+  | TWrite p (Raised _) _ => []
   end.
 Definition disjointb {A} (eqb : A -> A -> bool) (a b : list A) : bool := forallb (fun x => negb (existsb (eqb x) b)) a.
 Definition independent2 (a b : task) : bool :=
